@@ -16,7 +16,7 @@ RULE = ("Cases: (a) 'reorder': an arrival order that is a permutation of 0..n-1 
         "against the longest-complete-prefix definition (emitted sequence, waiting_for, len); (b) 'script': histories mixing "
         "arrivals with the documented extras: overwrite before emission, AttributeError for an emitted position, Buffer.flush, "
         "PrintBuffer.flush (also when empty / right after construction / after a complete run), PrintBuffer.clear, custom end; "
-        "(c) 'ring': CircularBuffer capacity 1..6 with put/clear sequences, every index -2..len+1 read after each step. "
+        "(c) 'ring': CircularBuffer capacity 1..6 with put/clear sequences, every index -2..len+1 read after each step (a third of the drawn ring histories: one point read per step instead). "
         "E5: all permutations of n<=6 (quick) / 7 (thorough) x all drain masks; all put/clear sequences of length<=8 for "
         "capacities 1..4. Non-trivial: permutation != identity with >=1 drain before the end; script with a flush or "
         "overwrite; ring with a wrap-around (more puts than capacity) or a clear followed by puts. Distinct = distinct case JSON.")
